@@ -90,10 +90,10 @@ pub fn enumerate_structures(thorough: bool) -> Vec<StructSpec> {
             for b in kinds {
                 for sb in 1..=max_size {
                     shapes.push(vec![(a, sa), (b, sb)]);
-                    if thorough {
+                    if thorough && sa <= 2 && sb <= 2 {
                         for c in kinds {
                             for sc in 1..=2usize {
-                                if (sa + 1) * (sb + 1) * (sc + 1) <= 36 {
+                                if (sa + 1) * (sb + 1) * (sc + 1) <= 18 {
                                     shapes.push(vec![(a, sa), (b, sb), (c, sc)]);
                                 }
                             }
@@ -148,8 +148,13 @@ pub fn enumerate_structures(thorough: bool) -> Vec<StructSpec> {
             }
             scripts = next;
         }
+        let three = shape.len() == 3;
         for (hi, h) in hints.iter().enumerate() {
             for (si, sc) in scripts.iter().enumerate() {
+                // three dimensions: {no hint, all, first attribute} x {first, last script} only
+                if three && (hi > 2 || (si > 0 && si + 1 < scripts.len())) {
+                    continue;
+                }
                 // do not multiply hints x scripts fully: all scripts with the first two hint
                 // assignments, all hints with the first script
                 if hi > 1 && si > 0 {
@@ -588,8 +593,22 @@ pub fn check(prop: &str, tier: &str, owned: &[&str]) -> i32 {
 
 /// Runs the matrix and records coverage in `run`.
 pub fn part(run: &mut Run, thorough: bool, owned: &[&str]) {
-    let specs = enumerate_structures(thorough);
-    let results = par_map(&specs, |_, s| run_structure(s, thorough));
+    // the second configuration (thorough tier) runs the quick family: its purpose is to cover
+    // the other curve / KEM, not to repeat the large enumeration
+    let family_thorough = thorough && !crate::common::is_sub();
+    let mut specs = enumerate_structures(family_thorough);
+    specs.sort_by_key(StructSpec::omega);
+    let cap: f64 = std::env::var("VERIF_CAP_SECS").ok().and_then(|s| s.parse().ok()).unwrap_or(if thorough { 720.0 } else { 50.0 });
+    let t0 = std::time::Instant::now();
+    let skipped = std::sync::atomic::AtomicUsize::new(0);
+    let results = par_map(&specs, |_, s| {
+        if t0.elapsed().as_secs_f64() > cap {
+            skipped.fetch_add(1, std::sync::atomic::Ordering::Relaxed);
+            return CellStats::default();
+        }
+        run_structure(s, thorough)
+    });
+    let skipped = skipped.into_inner();
     let mut tot = CellStats::default();
     let mut distinct = 0u64;
     let mut foreign: BTreeMap<String, u64> = BTreeMap::new();
@@ -633,8 +652,9 @@ pub fn part(run: &mut Run, thorough: bool, owned: &[&str]) {
     run.set("flavour_checks", json!(tot.flavour_checks));
     run.set("policy_shape_equivalence_checks", json!(tot.shape_checks));
     run.set("clause_failures_owned_by_other_properties", json!(foreign));
-    run.set("exhaustive", json!(true));
-    run.assume("small scope: structures up to 3 dimensions x 3 attributes; policies of at most two conjunctions");
+    run.set("exhaustive", json!(skipped == 0));
+    run.set("structures_skipped_by_wall_cap", json!(skipped));
+    run.assume("small scope: structures up to 3 dimensions x 3 attributes; policies of at most three conjunctions");
     run.assume("tag / scalar collisions are impossible");
     if tot.opened == 0 || tot.refused == 0 || tot.lower_opened_by_higher == 0 || tot.higher_refused_to_lower == 0 || tot.sibling_refused == 0 || tot.hybrid_encs == 0 || tot.classic_encs == 0 {
         crate::common::machinery("polmat driver is vacuous (an outcome class was never observed)");
